@@ -91,7 +91,16 @@ def _bounded_in_child(Dm, tier, seed):
 
 def _replay_child(L, cand, conn):
     try:
-        conn.send(("ok", L.replay(cand)))
+        _cfg = cand.get("cfg") if isinstance(cand, dict) else None
+        if isinstance(_cfg, dict) and _cfg.get("signatures"):
+            from contracts import signatures as _sigs
+            conn.send(("ok", _sigs.replay(cand["name"].split("/")[0])))
+        elif isinstance(_cfg, dict) and _cfg.get("grad") == "off":
+            import torch as _torch
+            with _torch.no_grad():
+                conn.send(("ok", L.replay(cand)))
+        else:
+            conn.send(("ok", L.replay(cand)))
     except Exception as e:
         # the replay runs the real code on numbers: an exception whose innermost frame is library code is the library
         # failing on the replayed scenario
@@ -170,7 +179,16 @@ def _worker(job):
     try:
         while True:
             try:
-                L.run_config(ctx, cfg)
+                if isinstance(cfg, dict) and cfg.get("signatures"):
+                    from contracts import signatures as _sigs
+                    _sigs.check(ctx, prop)
+                elif isinstance(cfg, dict) and cfg.get("grad") == "off":
+                    # the caller evaluates with autograd switched off (torch.no_grad): same results, same frames
+                    import torch as _torch
+                    with _torch.no_grad():
+                        L.run_config(ctx, cfg)
+                else:
+                    L.run_config(ctx, cfg)
                 break
             except alg.FinerExp:
                 # half-angle style code: repeat the whole configuration with atoms exp(g/4), exp(g/8) (the reading of
@@ -343,6 +361,9 @@ def run_check(prop, tier, seed, jobs=None):
     os.environ.setdefault("VF_CLEAR_LIMIT", "60000" if tier == "quick" else "400000")     # term budget of the zero test
     L = importlib.import_module("lemmas." + prop)
     cfgs = list(L.configs(tier))
+    from contracts import signatures as _sigs
+    if _sigs.table(prop):
+        cfgs.append({"signatures": "positional order of the public parameters"})
     canaries = list(getattr(L, "canaries", lambda t: [])(tier))
     work = [(prop, tier, seed, c, None) for c in cfgs] + [(prop, tier, seed, c, k) for (c, k) in canaries]
     nproc = int(os.environ.get("VF_JOBS", "0")) or min(16, os.cpu_count() or 1)
